@@ -39,7 +39,11 @@ func main() {
 	}
 	g := drive.NewGen(7, "l1")
 	ctx := context.Background()
-	for _, op := range g.History(12) {
+	hist := g.History(12)
+	if os.Getenv("PROBE_EMPTY") != "" {
+		hist = nil
+	}
+	for _, op := range hist {
 		op.Now *= 2
 		op.Ts *= 2
 		r := env.Exec(ctx, "w1", op)
@@ -54,6 +58,12 @@ func main() {
 			continue
 		}
 		parts := strings.SplitN(line, " ", 3)
+		if parts[0] == "NOW" {
+			var n int
+			fmt.Sscan(parts[1], &n)
+			env.SetNow(n)
+			continue
+		}
 		var body any
 		if len(parts) == 3 {
 			body = parts[2]
